@@ -2,7 +2,6 @@ package generator
 
 import (
 	"fmt"
-	"strings"
 
 	"github.com/vkd/goag/specification"
 )
@@ -107,21 +106,12 @@ func NewComponents(spec specification.Components, cfg Config) (zero Components, 
 		var ifaces []ResponseUsedIn
 		var status string
 		for _, usedIn := range resp.UsedIn {
-			oName := PublicFieldName(usedIn.Operation.OperationID)
-			if oName == "" {
-				oName = string(usedIn.Operation.Method.Title)
-				raw := usedIn.Operation.PathRaw
-				for _, ss := range strings.Split(raw, "/")[1:] {
-					if strings.HasPrefix(ss, "{") && strings.HasSuffix(ss, "}") {
-						oName += Title(ss[1 : len(ss)-1])
-					} else {
-						oName += Title(ss)
-					}
-				}
-				if raw != "" && strings.HasSuffix(raw, "/") {
-					oName += "RT"
-				}
+			// the operation's name, derived the way the operation itself derives it
+			opPath, err := NewPath(usedIn.Operation.PathRaw)
+			if err != nil {
+				return zero, nil, fmt.Errorf("response %q: path of operation: %w", r.Name, err)
 			}
+			oName := string(NewOperationName(usedIn.Operation.Method.Title, usedIn.Operation, opPath))
 			switch usedIn.Status {
 			case "default":
 				status = usedIn.Status
